@@ -177,8 +177,8 @@ def normalize(node):
             del out["fields"]
     if out.get("k") == "call":
         c = out.get("callee") or ""
-        if c == "alloc::__export::must_use" and len(out["args"]) == 1:
-            return out["args"][0]
+        if c in ("alloc::__export::must_use", "core::hint::must_use") and len(out["args"]) == 1:
+            return peel(out["args"][0])
         if c == "alloc::fmt::format" and len(out["args"]) == 1 and isinstance(out["args"][0], dict) and out["args"][0].get("k") == "fmt":
             return {"k": "format", "fmt": out["args"][0], "ty": out.get("ty"), "sp": out.get("sp"), "mac": out.get("mac")}
     return out
